@@ -97,7 +97,7 @@ def _truth_tested_nodes(root: ast.AST) -> Collection[ast.AST]:
 
 
 def _is_arithmetic(node: ast.AST) -> bool:
-    """The node is a sum that sympy reads like Python does: numbers, names, arithmetic operators.
+    """The node is a sum that sympy reads like Python does: integers, names, exact operators.
 
     parse_expr evaluates the text on Symbol objects, which are always true: `i and 1` would be 1,
     `not x` False, `a if c else b` a, and `(n := 5)` would not bind anything any more.
@@ -110,10 +110,16 @@ def _is_arithmetic(node: ast.AST) -> bool:
             return False
         if isinstance(child, ast.UnaryOp) and not isinstance(child.op, (ast.USub, ast.UAdd)):
             return False
-        if isinstance(child, ast.Constant) and (
-            isinstance(child.value, bool) or not isinstance(child.value, (int, float))
-        ):
+        if isinstance(child, ast.Constant) and type(child.value) is not int:
+            # Sums of floats are rounded after every addition, sympy adds them exactly
             return False
+        if isinstance(child, ast.BinOp) and isinstance(child.op, ast.Div):
+            # 1 / 2 + 1 / 2 is the float 1.0, and x / x raises for 0: sympy says 1
+            return False
+        if isinstance(child, ast.BinOp) and isinstance(child.op, ast.Pow):
+            exponent = child.right
+            if not (isinstance(exponent, ast.Constant) and type(exponent.value) is int):
+                return False  # 3 ** i is a float for negative i (UnaryOp: a negative literal)
 
     return True
 
